@@ -92,16 +92,36 @@ class FnSrc:
         return {"qualname": self.qualname, "file": self.mod.path, "lines": list(self.lines), "sha256": self.sha256}
 
 
-def get_function(modname, name):
-    """name is 'func' or 'Class.method'."""
+def get_function(modname, name, _depth=0):
+    """name is 'func' or 'Class.method'.  A function that the module does not define itself but imports from another module of the package
+    (it was moved and imported back) is followed to where it is defined; a class attribute `name = staticmethod(func)` / `name = func` is
+    followed to the module-level function."""
     mod = load_module(modname)
     if "." in name:
         cname, mname = name.split(".", 1)
+        if cname not in mod.classes and cname in mod.imports and _depth < 4:
+            origin = mod.imports[cname]
+            if origin.startswith("chmpy.") and "." in origin:
+                return get_function(origin.rsplit(".", 1)[0], origin.rsplit(".", 1)[1] + "." + mname, _depth + 1)
         cls = mod.classes[cname]
         for n in cls.body:
             if isinstance(n, ast.FunctionDef) and n.name == mname:
                 return FnSrc(mod, n, cls)
+        for n in cls.body:
+            if isinstance(n, ast.Assign) and any(isinstance(t, ast.Name) and t.id == mname for t in n.targets):
+                v = n.value
+                if isinstance(v, ast.Call) and isinstance(v.func, ast.Name) and v.func.id in ("staticmethod", "classmethod") and v.args:
+                    v = v.args[0]
+                if isinstance(v, ast.Name) and _depth < 4:
+                    return get_function(modname, v.id, _depth + 1)
         raise KeyError(name)
+    if name not in mod.functions and name in mod.imports and _depth < 4:
+        origin = mod.imports[name]
+        if origin.startswith("chmpy.") and "." in origin:
+            try:
+                return get_function(origin.rsplit(".", 1)[0], origin.rsplit(".", 1)[1], _depth + 1)
+            except (KeyError, FileNotFoundError):
+                pass
     return FnSrc(mod, mod.functions[name])
 
 
